@@ -11,6 +11,8 @@ import CfrVerif.Model.Named
 import CfrVerif.Model.Dispatch
 import CfrVerif.Model.Cli
 import CfrVerif.Model.Worklist
+import CfrVerif.Model.Locks
+import Std.Data.HashSet
 /-!
 # `cfrmodel` : the model (L1) at `α = Float` behind a line protocol
 
@@ -518,6 +520,65 @@ def cliEval (loaded : Except CliError (Game Float × Float)) : P String := do
       | .error e => pure (cliErrStr e)
       | .ok out => pure s!"ok {cliOutStr sum out}"
 
+
+/-! ## mutex traces (Model/Locks.lean) -/
+
+def lockIdStr : LockId → String
+  | .chance i => s!"0 {i}"
+  | .player true i => s!"1 {i}"
+  | .player false i => s!"2 {i}"
+
+/-- operation codes as in the crate's `verif::sync` : 0 lock, 1 try_lock, 3 unlock -/
+def levStr : LEv → String
+  | .acq l => s!"0 {lockIdStr l}"
+  | .tryAcq l => s!"1 {lockIdStr l}"
+  | .rel l => s!"3 {lockIdStr l}"
+
+def pLockId : P LockId := do
+  let k ← pNat
+  let i ← pNat
+  if k == 0 then pure (.chance i) else if k == 1 then pure (.player true i)
+  else if k == 2 then pure (.player false i) else throw s!"bad lock kind {k}"
+
+def pLEv : P LEv := do
+  let op ← pNat
+  let l ← pLockId
+  if op == 0 then pure (.acq l) else if op == 1 then pure (.tryAcq l)
+  else if op == 3 then pure (.rel l) else throw s!"bad lock operation {op}"
+
+def pTraces : P (List (List LEv)) := do
+  let n ← pNat
+  let mut ts : Array (List LEv) := #[]
+  for _ in [0:n] do
+    let k ← pNat
+    let mut t : Array LEv := #[]
+    for _ in [0:k] do t := t.push (← pLEv)
+    ts := ts.push t.toList
+  pure ts.toList
+
+/-- depth-first search for a schedule of the given traces that reaches a `try_lock` on a held
+mutex or a deadlock (support for reporting a failing schedule; not a proof) -/
+partial def searchBad (limit : Nat) (ts : List (List LEv)) : String :=
+  let n := ts.length
+  let key (c : LCfg) : List Nat := c.tasks.map List.length
+  let rec go (stack : List (LCfg × List Nat)) (seen : Std.HashSet (List Nat)) : String :=
+    match stack with
+    | [] => "none"
+    | (cfg, sched) :: rest =>
+      if seen.size > limit then "limit" else
+      let outs := (List.range n).map (fun j => (j, lstep cfg j))
+      match outs.find? (fun o => match o.2 with | .panic => true | _ => false) with
+      | some (j, _) => "panic " ++ " ".intercalate ((j :: sched).reverse.map toString)
+      | none =>
+        let succ := outs.filterMap (fun o => match o.2 with | .ok c => some (c, o.1 :: sched) | _ => none)
+        if succ.isEmpty && !cfg.finished then
+          "deadlock " ++ " ".intercalate (sched.reverse.map toString)
+        else
+          let fresh := succ.filter (fun x => !seen.contains (key x.1))
+          let seen := fresh.foldl (fun s x => s.insert (key x.1)) seen
+          go (fresh ++ rest) seen
+  go [(LCfg.init ts, [])] (Std.HashSet.emptyWithCapacity.insert (key (LCfg.init ts)))
+
 def cliCmd (c : String) : P String := do
   if c == "cli-gambit" then
     let fmt ← pFormat
@@ -640,6 +701,22 @@ def cmd : P String := do
       let s0 : SolveSt Float := SolveSt.init g
       if m == "E" then pure s!"ok {fHex (marginsExternal g p draw thr T 1 s0 fInf)}"
       else pure s!"ok {fHex (marginsVanilla g (m == "S") p draw thr T 1 s0 fInf)}"
+  else if c == "locktrace" then
+    withGame fun g => do
+      let p ← pParams
+      let T ← pNat
+      let seed ← pNat
+      let draw := drawHash seed.toUInt64
+      let passes := externalLockPasses g p draw T 1 (SolveSt.init g) []
+      pure (s!"ok {passes.length} " ++ " ".intercalate (passes.map (fun t =>
+        s!"{t.length} " ++ " ".intercalate (t.map levStr))))
+  else if c == "poolok" then do
+    let ts ← pTraces
+    pure s!"ok {poolOKb ts} {poolOKwhy ts}"
+  else if c == "locksearch" then do
+    let limit ← pNat
+    let ts ← pTraces
+    pure s!"ok {searchBad limit ts}"
   else if c == "presets" then
     let ps : List (RegretParams Float) :=
       [RegretParams.vanilla, RegretParams.lcfr, RegretParams.cfrPlus, RegretParams.dcfr,
